@@ -28,6 +28,12 @@ PRE_1D = {
     "reshape": ("x.reshape(2, -1)", "a.reshape(2, -1)"),
     "bcast": ("da.broadcast_to(x, (2,) + x.shape)", "np.broadcast_to(a, (2,) + a.shape)"),
     "elem_take": ("(x + x[::-1])[[2, 0, 1]]", "(a + a[::-1])[[2, 0, 1]]"),
+    "take_rev_slice": ("x[[5, 4, 3, 2, 1, 0]][2:]", "a[[5, 4, 3, 2, 1, 0]][2:]"),
+    "take_rev_slice2": ("x[[5, 4, 3, 2, 1, 0]][1:5]", "a[[5, 4, 3, 2, 1, 0]][1:5]"),
+    "take_perm_slice": ("x[[3, 2, 1, 0, 5, 4]][2:6]", "a[[3, 2, 1, 0, 5, 4]][2:6]"),
+    "take_dup_slice": ("x[[2, 0, 1, 1, 4]][1:]", "a[[2, 0, 1, 1, 4]][1:]"),
+    "slice_take": ("x[1:][[4, 3, 2, 1, 0]]", "a[1:][[4, 3, 2, 1, 0]]"),
+    "take_rechunk": ("x[[5, 4, 3, 2, 1, 0]].rechunk(4)", "a[[5, 4, 3, 2, 1, 0]]"),
     "diff": ("da.diff(x)", "np.diff(a)"),
     "roll": ("da.roll(x, 2)", "np.roll(a, 2)"),
 }
@@ -43,6 +49,8 @@ PRE_2D = {
     "swv_sum": ("da.sliding_window_view(x, 2, axis=0).sum(axis=-1)", "np.lib.stride_tricks.sliding_window_view(a, 2, axis=0).sum(axis=-1)"),
     "sum0": ("x.sum(axis=0)", "a.sum(axis=0)"),
     "ravel": ("x.ravel()", "a.ravel()"),
+    "take_rev_slice": ("x[[2, 1, 0]][1:]", "a[[2, 1, 0]][1:]"),
+    "take1_slice": ("x[:, [3, 2, 1, 0]][:, 1:]", "a[:, [3, 2, 1, 0]][:, 1:]"),
     "elem3_take": ("((x + x.rechunk((1, 4))) + x.rechunk((3, 1)))[[2, 0, 1, 0]]", "((a + a) + a)[[2, 0, 1, 0]]"),
 }
 POST = {
@@ -64,17 +72,25 @@ FNS = {
     "method": ("({p}).map_blocks(uf.rec_info, dtype='f8')", "{pn}"),
     "two": ("da.map_blocks(uf.rec_two, {p}, {p} * 2, dtype='f8')", "{pn} + {pn} * 2"),
     "newaxis": ("da.map_blocks(uf.rec_newaxis, {p}, dtype='f8', new_axis=0)", "{pn}[None]"),
+    # a plain function (no block_info) whose values depend on where the block
+    # boundaries are: the reference applies it per block of the layout that
+    # pre(x) advertises
+    "demean": ("da.map_blocks(uf.demean0, {p}, dtype='f8')", "uf.np_blockmap(uf.demean0, {pn}, ({p}).chunks)"),
+    "demean_chunks": ("da.map_blocks(uf.demean0, {p}, dtype='f8', chunks=({p}).chunks)", "uf.np_blockmap(uf.demean0, {pn}, ({p}).chunks)"),
 }
+PLAIN_POST = ("id", "sum", "rechunk", "plus")
 
 
 def _cases(src, pres, nd):
     for pname, (p, pn) in pres.items():
         for fname, (f, fnn) in FNS.items():
             m = f.format(p=p)
-            n = fnn.format(pn=pn)
+            n = fnn.format(pn=pn, p=p)
             for qname, (q, qn) in POST.items():
                 if fname == "newaxis" and qname in ("plus",):
                     continue
+                if fname.startswith("demean") and qname not in PLAIN_POST:
+                    continue  # slices above a plain map_blocks: KF-MAPBLOCKS-SLICE-PUSHDOWN
                 expr = q.format(m="(" + m + ")", p="(" + p + ")")
                 nexpr = qn.format(n="(" + n + ")", pn="(" + pn + ")")
                 yield {"source": src, "expr": expr, "nexpr": nexpr, "label": f"{pname}>{fname}>{qname}", "pre": p, "fn": fname, "exact": False, "np_raises_must_raise": False, "may_refuse": ["ValueError", "IndexError"] if qname in ("take", "slice", "last") else []}
@@ -93,10 +109,10 @@ def gen_cases(shard):
 def plan_shards(tier):
     shards = []
     chs = compositions(6)
-    for c in chs if tier != "quick" else chs[::4]:
+    for c in chs if tier != "quick" else chs[::5]:
         shards.append({"shape": [6], "chunks": [list(c)]})
     c2 = list(itertools.product(compositions(3), compositions(4)))
-    for c in c2 if tier != "quick" else c2[::5]:
+    for c in c2 if tier != "quick" else c2[::8]:
         shards.append({"shape": [3, 4], "chunks": [list(k) for k in c]})
     return shards
 
@@ -117,6 +133,8 @@ def _extra(case, y, val, ref, a, x):
     y.compute(scheduler="sync")
     log = list(userfns.LOG)
     userfns.LOG.clear()
+    if case["fn"].startswith("demean"):
+        return None  # judged by value: the reference is per block of pre(x).chunks
     if not log and np.size(ref) > 0:
         return ("never-called", "the recording function was never invoked on a non-empty block")
     for e in log:
